@@ -26,7 +26,8 @@ RULE = (
     "every kind, roCreates, completed running orders (serialised after a roDelete), non-XML files, "
     "well-formed XML of unknown type, missing paths and directories, listed in a drawn order for "
     "`detect` and `inspect`; for `merge`: valid collections, invalid ones (second roCreate, missing "
-    "roDelete, non-XML member) and collections whose strict merge fails, x {-o file, stdout} x -i x "
+    "roDelete, non-XML member), collections whose strict merge fails and collections whose roCreate "
+    "file is an already completed running order (the output of an earlier merge), x {-o file, stdout} x -i x "
     "-n.  The CLI is called in-process as mosromgr.cli.main(argv) with stdout/stderr captured and "
     "SystemExit recorded; the thorough tier re-runs a sample in real subprocesses for the process "
     "exit status.  Oracle: detect prints, for every classifiable file in argument order, the line "
@@ -38,7 +39,7 @@ RULE = (
     "Non-trivial = >= 3 files with a bad/unreadable one that is not last, or a non-default option.")
 ASSUMPTIONS = ['S3 options of the CLI are exercised by C18 at library level only',
                'inspect() output of the library is the reference for the inspect command (self-consistency)']
-MANDATORY = ['detect', 'inspect', 'merge', 'bad-file-not-last', 'missing-path', 'directory', 'completed-ro',
+MANDATORY = ['detect', 'inspect', 'merge', 'merge:shape:completed-create', 'bad-file-not-last', 'missing-path', 'directory', 'completed-ro',
              'merge:-o', 'merge:-i', 'merge:-n', 'merge:invalid-collection', 'merge:strict-failure',
              'merge:no-input']
 
@@ -229,14 +230,14 @@ def listing_case(draw):
         content = {'garbage': 'this is <not xml', 'unknown': '<mos><mosID>x</mosID><heartbeat/></mos>',
                    'empty': ''}.get(kind)
         files.insert(draw(st.integers(0, len(files))), ('garbage' if kind == 'empty' else kind, content))
-    files = list(draw(st.permutations(files))) if draw(st.booleans()) else files
+    files = list(draw(gen.permutation(files))) if draw(st.booleans()) else files
     return {'cmd': draw(st.sampled_from(['detect', 'inspect'])), 'files': [list(f) for f in files]}
 
 
 @st.composite
 def merge_case(draw):
     shape = draw(st.sampled_from(['valid', 'valid', 'valid', 'no-delete', 'two-creates', 'garbage-member',
-                                  'strict-failure', 'no-input', 'missing-member']))
+                                  'strict-failure', 'no-input', 'missing-member', 'completed-create']))
     faults = 'heavy' if shape == 'strict-failure' else 'none'
     col = draw(colgen.collection(min_msgs=1, max_msgs=6, faults=faults, rich=draw(st.booleans()),
                                  with_delete='no' if shape == 'no-delete' else 'always'))
@@ -251,7 +252,12 @@ def merge_case(draw):
         files.insert(draw(st.integers(0, len(files))), ['missing', None])
     elif shape == 'no-input':
         files = []
-    files = list(draw(st.permutations(files)))
+    elif shape == 'completed-create':
+        # the roCreate is the output of an earlier merge that included a roDelete
+        files[0] = ['valid', completed_ro(col['docs'][0], col['ro_id'])]
+        if draw(st.booleans()):
+            files = [f for f in files if 'roDelete' not in f[1][:4000] or f is files[0]]
+    files = list(draw(gen.permutation(files)))
     opts = {'o': draw(st.booleans()), 'i': draw(st.booleans()), 'n': draw(st.booleans())}
     return {'cmd': 'merge', 'files': files, 'opts': opts, 'shape': shape}
 
